@@ -203,13 +203,15 @@ mod imp {
                 off += 2;
             }
             let n = unsafe { *tp.add(off) };
+            // literal pieces longer than 127 bytes are encoded as 0x80, u16 length, bytes
+            let skip = if n == 0x80 { 3 } else { 1 };
             // `{pos:#X}: ` convention: alternate flag, implicit index 0, next piece starts with ": "
             if alt_upper_hex
                 && !explicit_index
                 && n >= 2
-                && n < 0x80
-                && unsafe { *tp.add(off + 1) } == b':'
-                && unsafe { *tp.add(off + 2) } == b' '
+                && n <= 0x80
+                && unsafe { *tp.add(off + skip) } == b':'
+                && unsafe { *tp.add(off + skip + 1) } == b' '
             {
                 let argp = ap as *const [usize; 2];
                 // the position must be a u64 rendered by UpperHex (`{pos:#X}`): the error sort and every
@@ -223,15 +225,19 @@ mod imp {
             }
         }
         let n = unsafe { *tp.add(off) };
-        if n > 0 && n < 0x80 {
-            let n = n as usize;
+        if n > 0 && n <= 0x80 {
+            let (n, start) = if n == 0x80 {
+                (unsafe { u16::from_le_bytes([*tp.add(off + 1), *tp.add(off + 2)]) } as usize, off + 3)
+            } else {
+                (n as usize, off + 1)
+            };
             unroll!(8, i, {
                 if i < n {
-                    r.lit[i] = unsafe { *tp.add(off + 1 + i) };
+                    r.lit[i] = unsafe { *tp.add(start + i) };
                 }
             });
             r.nlit = if n < 8 { n } else { 8 };
-            r.litp = unsafe { tp.add(off + 1) };
+            r.litp = unsafe { tp.add(start) };
         }
         r
     }
